@@ -468,6 +468,11 @@ peg::parser! {
         pub(crate) rule function_parens_and_body() -> ast::FunctionBody =
             specific_operator("(") specific_operator(")") linebreak() body:function_body() { body }
 
+        // Entry point for a function's text on its own (an imported function): it may end with
+        // the newline that closes a here-document in the body's redirection list.
+        pub(crate) rule standalone_function_parens_and_body() -> ast::FunctionBody =
+            body:function_parens_and_body() linebreak() { body }
+
         // N.B. A function body must be a compound command per POSIX grammar.
         rule function_body() -> ast::FunctionBody =
             c:compound_command() r:redirect_list()? { ast::FunctionBody(c, r) }
